@@ -1,6 +1,8 @@
 import RpmVerif.Lemmas.AddData
 import RpmVerif.Lemmas.AddDataSpec
 import RpmVerif.Props.C20
+import RpmVerif.Lemmas.WithFile
+import RpmVerif.Gen.CompressionNames
 /-!
 # C17 — the builder rejects bad arguments with errors, not panics
 
@@ -10,6 +12,9 @@ variants and all integer levels, all capability texts (for an arbitrary validato
 * `addDataRaw` models `PackageBuilder::add_data` on top of the model of Unix `std::path`
   (`Model/Path.lean`); `AddDataSpec.Splittable` is the property's "can be split into a directory
   and a file name", stated on the text alone.
+* `with_file` (source file = content, `st_mode`, mtime; options chain) is `Model/WithFile.lean`: `with_file_total`,
+  `with_file_mtime_err_iff`, `with_file_outcomes`, `build_calls_total`; the default compression is the scraped table:
+  `default_level_in_range`, `default_is_some_variant` (end of the file).
 * The timestamp setters are the documented negative: `source_date` / `add_changelog_entry`
   unwrap the conversion, so they panic exactly outside `0 ≤ t < 2³²`
   (`timestamp_setter_panics_iff`, witnesses below). The full statement
@@ -393,5 +398,179 @@ theorem add_data_new_total (dest : Bytes) : (addData dest).isPanic = false := by
   have := add_data_total dest
   unfold addData
   cases hr : addDataRaw dest <;> simp_all [Out.map, Out.isPanic]
+
+open RpmVerif.WithFile
+
+/-! ### `with_file`: the source file and the options chain (coverage gap G5) -/
+
+/-- **`with_file` never panics** — for every source (missing, unreadable, any content, EVERY `st_mode` word, every
+modification instant), every options value and every destination -/
+theorem with_file_total (sha256hex : Bytes → Bytes) (src : Source) (o : FileOpts) :
+    (withFile sha256hex src o).isPanic = false := by
+  cases src with
+  | openFails => rfl
+  | readFails => rfl
+  | readable f =>
+    rw [withFile_readable]
+    split
+    · rfl
+    · have := add_data_new_total o.destination
+      cases ha : addData o.destination with
+      | ok r => rfl
+      | err e => rfl
+      | panic s => rw [ha] at this; cases this
+
+/-- **a modification time outside 1970-01-01 .. 2106-02-07T06:28:15Z is `Err(TimestampConv)`, and nothing else is** -/
+theorem with_file_mtime_err_iff (sha256hex : Bytes → Bytes) (src : Source) (o : FileOpts) :
+    withFile sha256hex src o = .err "TimestampConv" ↔
+      ∃ f, src = .readable f ∧ (f.mtime.secs < 0 ∨ 4294967296 ≤ f.mtime.secs) := by
+  cases src with
+  | openFails => exact ⟨fun h => (by simp [withFile, errIo] at h), fun ⟨f, h, _⟩ => (by cases h)⟩
+  | readFails => exact ⟨fun h => (by simp [withFile, errIo] at h), fun ⟨f, h, _⟩ => (by cases h)⟩
+  | readable f =>
+    rw [withFile_readable]
+    constructor
+    · intro h
+      split at h
+      · rename_i hr; exact ⟨f, rfl, hr⟩
+      · exfalso
+        rcases add_data_outcomes o.destination with ⟨c, d, b, hr⟩ | hr
+        · simp only [addData, hr, Out.map] at h; cases h
+        · simp [addData, hr, Out.map] at h
+    · rintro ⟨f', hf, hr⟩
+      cases hf
+      rw [if_pos hr]
+
+/-- **all outcomes of `with_file`**: `Ok` exactly for a readable source with an in-range mtime and a splittable
+destination; otherwise `Err(Io)` (source), `Err(TimestampConv)` (mtime; reported before the destination is looked at) or
+`Err(InvalidDestinationPath)` -/
+theorem with_file_outcomes (sha256hex : Bytes → Bytes) (src : Source) (o : FileOpts) :
+    ((∃ e, withFile sha256hex src o = .ok e) ↔
+        ∃ f, src = .readable f ∧ 0 ≤ f.mtime.secs ∧ f.mtime.secs < 4294967296 ∧ Splittable o.destination) ∧
+    ((∃ e, withFile sha256hex src o = .ok e) ∨ withFile sha256hex src o = .err "io" ∨
+      withFile sha256hex src o = .err "TimestampConv" ∨ withFile sha256hex src o = .err "InvalidDestinationPath") := by
+  cases src with
+  | openFails =>
+    exact ⟨⟨fun ⟨e, h⟩ => (by cases h), fun ⟨f, h, _⟩ => (by cases h)⟩, .inr (.inl rfl)⟩
+  | readFails =>
+    exact ⟨⟨fun ⟨e, h⟩ => (by cases h), fun ⟨f, h, _⟩ => (by cases h)⟩, .inr (.inl rfl)⟩
+  | readable f =>
+    rw [withFile_readable]
+    by_cases hr : f.mtime.secs < 0 ∨ 4294967296 ≤ f.mtime.secs
+    · rw [if_pos hr]
+      refine ⟨⟨fun ⟨e, h⟩ => (by cases h), fun ⟨f', hf, h0, h1, _⟩ => ?_⟩, .inr (.inr (.inl rfl))⟩
+      cases hf; omega
+    · rw [if_neg hr]
+      rcases add_data_outcomes o.destination with ⟨c, d, b, ha⟩ | ha
+      · have hs : Splittable o.destination := (add_data_ok_iff_splittable _).mp ⟨_, ha⟩
+        simp only [addData, ha, Out.map]
+        exact ⟨⟨fun _ => ⟨f, rfl, by omega, by omega, hs⟩, fun _ => ⟨_, rfl⟩⟩, .inl ⟨_, rfl⟩⟩
+      · have hs : ¬ Splittable o.destination := (add_data_err_unsplittable _).mpr ha
+        have hx : addData o.destination = .err "InvalidDestinationPath" := by simp only [addData, ha, Out.map]
+        rw [hx]
+        exact ⟨⟨fun ⟨e, h⟩ => (by cases h), fun ⟨_, _, _, _, h⟩ => absurd h hs⟩, .inr (.inr (.inr rfl))⟩
+
+/-- the options chain never panics; its only error is the capability text -/
+theorem setters_total (valid : Bytes → Bool) (ss : List Setter) (o : FileOpts) :
+    (applySetters valid ss o).isPanic = false := by
+  rcases applySetters_cases valid ss o with ⟨o', h⟩ | h <;> rw [h] <;> rfl
+
+/-- **a whole sequence of `FileOptions::new(dest).<setters>` + `with_file(source, ..)?` calls never panics** -/
+theorem build_calls_total (sha256hex : Bytes → Bytes) (valid : Bytes → Bool) (calls : List Call) (s : BState) :
+    (buildState sha256hex valid calls s).isPanic = false := by
+  induction calls generalizing s with
+  | nil => rfl
+  | cons c r ih =>
+    have hc : (runCall sha256hex valid c).isPanic = false := by
+      unfold runCall
+      rcases applySetters_cases valid c.setters (FileOpts.new c.dest) with ⟨o', h⟩ | h
+      · rw [h]; exact with_file_total _ _ _
+      · rw [h]; rfl
+    simp only [buildState]
+    cases hr : runCall sha256hex valid c with
+    | ok e => exact ih _
+    | err e => rfl
+    | panic p => rw [hr] at hc; cases hc
+
+/-! ### default compression (coverage gap G6) -/
+
+/-- **every default level is one the range check accepts** (and a value of the variant's payload type): converting a
+`CompressionType` never yields a configuration `build()` then rejects -/
+theorem default_level_in_range (t v : Nat) (l : Int) (h : withLevelOfType t = some (v, l)) :
+    levelInRange v l = true ∧ levelRepresentable v l = true := by
+  have key : ∀ e ∈ Gen.defaultOfType, levelInRange e.2.1 (e.2.2.getD 0) = true ∧ levelRepresentable e.2.1 (e.2.2.getD 0) = true := by
+    decide
+  unfold withLevelOfType at h
+  cases hf : Gen.defaultOfType.find? (fun e => e.1 == t) with
+  | none => rw [hf] at h; cases h
+  | some e =>
+    rw [hf] at h
+    simp only [Option.some.injEq, Prod.mk.injEq] at h
+    obtain ⟨rfl, rfl⟩ := h
+    exact key e (List.mem_of_find?_eq_some hf)
+
+/-- every `CompressionType` has an arm, and the arm keeps the type (`Gzip ↦ Gzip(_)`, …) -/
+theorem default_of_every_type :
+    (∀ t, t < Gen.compressionNumVariants → (withLevelOfType t).isSome = true) ∧
+    Gen.defaultOfType.map (fun e => Gen.levelVariants[e.2.1]?) = Gen.defaultOfType.map (fun e => Gen.compressionVariants[e.1]?) := by
+  refine ⟨by decide, rfl⟩
+
+/-- **`CompressionWithLevel::default()` is a variant of the enum with an accepted level, for every combination of cargo
+features**, and it is a type whose codec is compiled in (or `None`) -/
+theorem default_is_some_variant (enabled : Nat → Bool) :
+    ∃ v l, defaultCompression enabled = some (v, l) ∧ v < Gen.levelVariants.length ∧ levelInRange v l = true ∧
+      (defaultType enabled = Gen.defaultFallback ∨ enabled (defaultType enabled) = true) := by
+  have hall : ∀ t ∈ Gen.defaultFallback :: Gen.defaultPreference.map (·.2),
+      ∃ v l, withLevelOfType t = some (v, l) ∧ v < Gen.levelVariants.length := by
+    have hd : ∀ t ∈ Gen.defaultFallback :: Gen.defaultPreference.map (·.2),
+        (withLevelOfType t).isSome = true ∧ ((withLevelOfType t).map (·.1)).getD Gen.levelVariants.length < Gen.levelVariants.length := by
+      decide
+    intro t ht
+    obtain ⟨h1, h2⟩ := hd t ht
+    cases hw : withLevelOfType t with
+    | none => rw [hw] at h1; cases h1
+    | some r => rw [hw] at h2; exact ⟨r.1, r.2, rfl, h2⟩
+  have hgate : ∀ p ∈ Gen.defaultPreference, p.1 = p.2 := by decide
+  have hmem : defaultType enabled ∈ Gen.defaultFallback :: Gen.defaultPreference.map (·.2) ∧
+      (defaultType enabled = Gen.defaultFallback ∨ enabled (defaultType enabled) = true) := by
+    unfold defaultType
+    cases hf : Gen.defaultPreference.find? (fun p => enabled p.1) with
+    | none => exact ⟨by simp, .inl rfl⟩
+    | some p =>
+      have hp := List.mem_of_find?_eq_some hf
+      have he : enabled p.1 = true := by simpa using List.find?_some hf
+      refine ⟨List.mem_cons_of_mem _ (List.mem_map_of_mem hp), .inr ?_⟩
+      show enabled p.2 = true
+      rw [← hgate p hp]; exact he
+  obtain ⟨v, l, h1, h2⟩ := hall _ hmem.1
+  exact ⟨v, l, h1, h2, (default_level_in_range _ v l h1).1, hmem.2⟩
+
+/-! ### non-vacuity for `with_file` and the default compression -/
+section
+open RpmVerif.FileMode
+-- one nanosecond before 1970 and the first second of 2106-02-07T06:28:16Z are errors, the last representable second is not
+example : withFile (fun _ => []) (.readable ⟨[], 0o100644, ⟨-1, 999999999, by decide⟩⟩) (FileOpts.new [47, 97]) = .err "TimestampConv" := by decide
+example : withFile (fun _ => []) (.readable ⟨[], 0o100644, ⟨4294967296, 0, by decide⟩⟩) (FileOpts.new [47, 97]) = .err "TimestampConv" := by decide
+example : (withFile (fun _ => []) (.readable ⟨[], 0o100644, ⟨4294967295, 999999999, by decide⟩⟩) (FileOpts.new [47, 97])).toOption.map (·.mtime) = some 4294967295 := by decide
+-- the mtime is converted before the destination is looked at; a good mtime with a bad destination is the destination's error
+example : withFile (fun _ => []) (.readable ⟨[], 0o100644, ⟨-5, 0, by decide⟩⟩) (FileOpts.new [47, 46, 46]) = .err "TimestampConv" ∧
+    withFile (fun _ => []) (.readable ⟨[], 0o100644, ⟨5, 0, by decide⟩⟩) (FileOpts.new [47, 46, 46]) = .err "InvalidDestinationPath" := by decide
+-- a missing source, a directory as source
+example : withFile (fun _ => []) .openFails (FileOpts.new [47, 97]) = .err "io" ∧ withFile (fun _ => []) .readFails (FileOpts.new [47, 97]) = .err "io" := by decide
+-- st_mode words no `FileMode` variant describes are stored as they are, low 16 bits: a FIFO, a word ≥ 2^31 (negative as i32), a word ≥ 2^16
+example : (withFile (fun _ => []) (.readable ⟨[], 0o010644, ⟨5, 0, by decide⟩⟩) (FileOpts.new [47, 97])).toOption.map (·.mode) = some 0o010644 ∧
+    (withFile (fun _ => []) (.readable ⟨[], 4294967295, ⟨5, 0, by decide⟩⟩) (FileOpts.new [47, 97])).toOption.map (·.mode) = some 65535 ∧
+    (withFile (fun _ => []) (.readable ⟨[], 65536 + 0o100644, ⟨5, 0, by decide⟩⟩) (FileOpts.new [47, 97])).toOption.map (·.mode) = some 0o100644 := by decide
+-- the hypotheses of `with_file_outcomes`' first half are satisfiable
+example : (withFile (fun _ => []) (.readable ⟨[1], 0o100644, ⟨5, 0, by decide⟩⟩) (FileOpts.new [47, 97])).isOk = true ∧
+    Splittable [47, 97] := ⟨by decide, (add_data_ok_iff_splittable _).mp ⟨([46, 47, 97], [47], [97]), by decide⟩⟩
+-- a chain whose capability text is refused ends in that error, not in a panic
+example : buildState (fun _ => []) (fun t => t == [61, 112]) [⟨.readable ⟨[1], 0o100644, ⟨5, 0, by decide⟩⟩, [47, 97], [.caps [61]]⟩] BState.empty = .err "InvalidCapabilities" := by decide
+-- defaults: zstd 19 with rpm-rs' default features, gzip 9 without zstd, xz 9 with xz only, none without any codec
+example : defaultCompression (fun t => Gen.cargoDefaultFeatureTypes.contains t) = some (1, 19) ∧
+    defaultCompression (fun t => t == 1 || t == 3) = some (2, 9) ∧ defaultCompression (fun t => t == 3) = some (3, 9) ∧
+    defaultCompression (fun _ => false) = some (0, 0) ∧ defaultCompression (fun t => t == 4) = some (0, 0) := by decide
+example : withLevelOfType 4 = some (4, 9) ∧ withLevelOfType 5 = none := by decide
+end
 
 end RpmVerif.C17
